@@ -3,8 +3,12 @@ pub mod engine;
 pub mod gen;
 pub mod refc;
 pub mod registry;
+pub mod tree;
 pub mod props {
     pub mod c01;
+    pub mod c13;
+    pub mod c14;
+    pub mod c15;
     pub mod c16;
     pub mod c17;
 }
@@ -43,6 +47,9 @@ pub fn dispatch() -> Vec<(&'static str, RunFn, ReplayFn)> {
     vec![
         ("C01", run_c01 as RunFn, props::c01::replay_c01 as ReplayFn),
         ("C03", run_c03, props::c01::replay_c03),
+        ("C13", props::c13::run, props::c13::replay),
+        ("C14", props::c14::run, props::c14::replay),
+        ("C15", props::c15::run, props::c15::replay),
         ("C16", props::c16::run, props::c16::replay),
         ("C17", props::c17::run, props::c17::replay),
     ]
